@@ -169,6 +169,18 @@ PROPS["C14"] = {
     "level_note": "Trusted: model validity classification (model.Apply) and prefix semantics. The listed finding is recognised by its exact after-state; a different residue is reported.",
 }
 
+PROPS["C16"] = {
+    "kind": "harness", "test": "TestC16", "level": "exploration",
+    "tiers": tiers(120, 4, 1200, 16),
+    "rule": "rapid-generated histories of 10-70 valid statements over up to 6 tables (table sizes bounded so that a full-table UPDATE/DELETE dirties fewer pages than the cache holds - the property's precondition), executed twice through the real engine: "
+            "with the default cache of 10000 pages and with a cache of a generated capacity 12-40 pages (hook VerifSetCacheSize) and a flush after every statement. Oracle (differential + model): every statement has the same outcome, "
+            "'cache full' while the dirty set fits is a violation, the cache never exceeds its capacity, no page stays dirty after a flush, and at the end every table and both catalog tables are identical row by row including row ids; both runs also equal the reference model. "
+            "Non-trivial: the small-cache run re-read pages from the data file during reads (counted through the cache.set hook) on a database of at least twice the cache size; distinct by case JSON.",
+    "technique": "differential property-based testing (rapid): same history under two cache configurations, plus reference model",
+    "level_text": "Random differential search over histories and cache capacities; finds eviction of dirty pages, stale node pointers kept across an eviction, decode/encode drift seen end-to-end. Search, not proof.",
+    "level_note": "Trusted: VerifSetCacheSize hook (replaces the LRU while nothing is dirty), the per-statement dirty-set bound (rows/4 leaves + path + catalog <= capacity, deliberately loose).",
+}
+
 HOOK_COMMITS = ["7ca683e"]
 
 NOT_APPLICABLE = {}
